@@ -4,6 +4,17 @@
 K = {"name": "TestKnown", "enum": True}
 
 CHECKS = {
+    "C08": {
+        "level": "exploration",
+        "tests": [
+            {"name": "TestC08Expr", "checks": [4000, 20000], "shards": [2, 16], "floor": 0.8},
+            {"name": "TestC08Triples", "enum": True},
+            {"name": "TestC08Spacing", "enum": True},
+            K,
+        ],
+        "assumptions": ["the reference model (harness/rm.go) is the executable reading of the operator table in C08",
+                        "operands stay inside the domain the statement covers (ints within 2^53, exact division, same-typed ==, non-numeric-looking strings)"],
+    },
     "C07": {
         "level": "exploration",
         "tests": [
